@@ -157,6 +157,29 @@ EXTRA5 = {
 for _k, _v in EXTRA5.items():
     EXTRA[_k] = EXTRA.get(_k, "") + _v
 
+EXTRA6 = {
+ "C01": " Also: a weight set through the rebalancer replaces the remembered one on every path of the found edge.",
+ "C02": " Also: the same for the rebalancer's record; weights are re-applied only after a change.",
+ "C03": " Also: the cap at burst is passed on every way through the refill.",
+ "C04": " Also: the per-source table is assigned only at construction; release lowers the count on every path.",
+ "C05": " Also: the state setter stores the deadline it is given on every path; no timer, goroutine or method value moves the state.",
+ "C07": " Also: CopyHeaders keeps keys and values as stored.",
+ "C08": " Also: the Host's port is used only when non-empty.",
+ "C09": " Also: configured header maps are never installed into a request; the shared header rewriter is not written on the request path.",
+ "C11": " Also: the encrypted codec cuts the payload at the stamp separator only where the stamp is checked; CopyHeaders adds to existing values.",
+ "C12": " Also: a recovery is ended only on a request's own path; transition hooks do not run under the lock.",
+ "C13": " Also: a delay replaces the running maximum only when compared larger; the built-in extractors name the source exactly.",
+ "C14": " Also: room is made before the new entry is stored; a bucket owns its numbers.",
+ "C15": " Also: every MaxSizeReachedError is answered 413; the four size options store their argument unchanged.",
+ "C16": " Also: every ProxyWriter constructor sets a logger.",
+ "C17": " Also: a Clone copies the window slot by slot and keeps the receiver's time stamp; ratios are read in one critical section; Record counts every response.",
+ "C18": " Also: Record counts every response; the clean-up visits every slot that may be stale.",
+ "C19": " Also: client.ip refuses only what the parser refuses or an empty host.",
+ "C20": " Also: every lock of package roundrobin is released on every path.",
+}
+for _k, _v in EXTRA6.items():
+    EXTRA[_k] = EXTRA.get(_k, "") + _v
+
 NA = {}
 
 def main():
